@@ -55,8 +55,9 @@ ASSUMPTIONS = [
 TRUSTED = [
     "harness/translator/py2ir.py and harness/translator/tables.py: the source -> IR translator and its classification table (printed into the "
     "evidence as classification_table); policy.json / dynamic_only.json / expected_obligations.json (committed, never written at run time): "
-    "policy.json holds, word for word, the only `_VERIF_*` hook statements left out of the model, the reviewed class decorators and the "
-    "reviewed writes of the entry points without a safety obligation",
+    "policy.json holds, word for word, the only `_VERIF_*` hook statements left out of the model, the reviewed class decorators, the "
+    "`class` line and resolved bases of every persim class (class_lines), the reviewed subclass hooks of persim base classes "
+    "(base_hooks_reviewed, none) and the reviewed writes of the entry points without a safety obligation",
     "the theorems are about IR programs: what ties them to persim is the translator, not a proof",
 ]
 PROP_FILES = ["PersimVerif/Props/C19.lean"] + py2ir.shard_files(common.REPO)
@@ -1977,13 +1978,14 @@ MANIFEST = {
             "obligation unsafe_<entry>: post-fixpoint, well-formed and not safe). Every run also executes the dynamic sweep on all entry "
             "points and on the three public methods inherited from scikit-learn (no persim source, no IR).",
     "note": "Trusted: Lean kernel; the translator py2ir.py with its classification table tables.py and policy.json (the tie between source and "
-            "IR is the translator, validated by a seeded corpus of 157 known-bad / 51 known-good / 23 to-be-refused snippets, by the check of its "
+            "IR is the translator, validated by a seeded corpus of 158 known-bad / 58 known-good / 50 to-be-refused snippets, by the check of its "
             "out/copy/overwrite_input positions against the installed numpy, by a dynamic probe of every function / method it calls fresh "
             "(identity, shared memory, write-through, on the installed numpy / scipy), and by the sweep, not proved). The translator "
             "over-approximates what it cannot resolve: calls through unresolved callables are unknown calls that may write everything "
             "reachable; only `weight` / `kernel` are assumed read-only caller-supplied callables; source it does not model (decorators, "
-            "module-level rebinding, conditional definitions, code in __init__.py, unreviewed `_VERIF_*` hooks) is refused or translated, "
-            "never skipped. [T] only: "
+            "module-level rebinding, conditional definitions, code in __init__.py or _version.py, unreviewed `_VERIF_*` hooks, a `class` line or "
+            "base list other than the reviewed one of policy.json class_lines, a persim base class with __init_subclass__ / __set_name__ / "
+            "metaclass / attribute-lookup hooks) is refused or translated, never skipped; every *.py file under persim/ is parsed. [T] only: "
             "argument byte-comparison, repeat / interleave / fresh-object equality (for plots: of what was drawn, and no artist on axes that "
             "were not passed), np.random.seed reproducibility of the mGH upper bound, and "
             "representation independence (nested lists / int arrays / float arrays) — the IR has no values or dtypes. Attribute tables of "
